@@ -24,7 +24,7 @@ func main() {
 	if pool.IsWorker() {
 		pool.Serve(map[string]pool.Handler{
 			"val": valWorker, "bind": bindWorker, "bytes": byteWorker, "bytebind": byteBindWorker,
-			"dec": decWorker, "pw": pwWorker, "conc": concWorker,
+			"dec": decWorker, "pw": pwWorker, "conc": concWorker, "hist": histWorker,
 		})
 	}
 	if f := os.Getenv("VERIF_C14_PROBE"); f != "" {
@@ -75,6 +75,10 @@ func main() {
 		shards = append(shards, pool.Shard{Kind: "bind", Arg: bindShard{Seed: seed, Lo: int(lo), Hi: int(hi)}})
 	})
 	shards = append(shards, pool.Shard{Kind: "bytebind", Arg: struct{}{}})
+	// 2b. build histories (element assignment / push / unset) as real scripts
+	chunk(int64(len(histories(quick))), 120, func(lo, hi int64) {
+		shards = append(shards, pool.Shard{Kind: "hist", Arg: histShard{Quick: quick, Seed: seed, Lo: int(lo), Hi: int(hi)}})
+	})
 	// 3. byte strings -> encoders and unstructured decoders
 	hot3 := hotBytes
 	if !quick {
@@ -167,7 +171,7 @@ func main() {
 		switch sh.Kind {
 		case "conc":
 			return 0
-		case "val", "bind", "bytes", "bytebind":
+		case "val", "bind", "bytes", "bytebind", "hist":
 			return 1
 		case "dec":
 			return 2
@@ -257,6 +261,8 @@ func main() {
 	c.Set("seed_rotation", seed)
 	c.Assume("the reference for each format is the Go implementation named in the property (encoding/json, encoding/base64, net/url, encoding/hex, crypto/*, protowire.Consume*); for PHP serialize it is the strict reader in refs.go (N b i d s a; trailing blanks and '+' before an unsigned length are not judged)")
 	c.Assume("origami represents associative arrays and stdClass objects by the same ObjectValue; values are compared as PHP values (ordered maps with PHP key normalisation), so list [a,b] equals map {0:a,1:b} and array/object identity is not judged")
+	c.Assume("a positional slot of an ArrayValue has its index as key (what foreach shows; checked per build history); an array that carries one key twice, or whose foreach view disagrees with its slots, has no meaning as a value and is counted, not judged")
+	c.Assume("marker strings are the string literals (2..24 bytes, not purely alphanumeric) of the JSON / serialize anchor sources of the tree under test, read from $VERIF_REPO at run time")
 	c.Assume("a string that is not valid UTF-8 has no JSON form: json_encode may refuse it (false / throw); emitting a different string is a read-back failure")
 	c.Assume("rawurlencode output is additionally read back as a query value through net/url.ParseQuery (RFC 3986 leaves no reserved character unescaped)")
 	c.Assume("protowire nesting: top level is level 1, each message/group content one deeper, max_depth = N admits N levels (pinned for messages by std/protowire TestDepthLimit); a field configured both packed and message may be read either way")
@@ -301,7 +307,7 @@ func shardWeight(s pool.Shard) int {
 			return 20 + a.Len*10
 		}
 		return 60
-	case bindShard:
+	case bindShard, histShard:
 		return 95
 	}
 	return 10
